@@ -43,6 +43,11 @@ class ClassRef:
         return (*(other if isinstance(other, tuple) else (other,)), self)
 
 
+class ModuleRef:
+    def __init__(self, q: str):
+        self.q = q
+
+
 class Stub:
     def __init__(self, cls_q: str, **attrs):
         object.__setattr__(self, '_cls', cls_q)
@@ -96,6 +101,8 @@ class ModelInterp(MiniEval):
             return self.globals[name]
         if self.modstack:
             q = self.a.p.resolve(self.modstack[-1], name)
+            if q in self.a.p.modules:
+                return ModuleRef(q)
             if q in self.a.p.classes:
                 return ClassRef(q)
             if q in self.a.p.functions:
@@ -148,6 +155,12 @@ class ModelInterp(MiniEval):
             return self.class_attr(None, base.q, attr)
         if isinstance(base, (FuncRef, Bound)) and attr == '__name__':
             return base.fn.name
+        if isinstance(base, ModuleRef):
+            self.modstack.append(base.q)
+            try:
+                return self.lookup(attr, {})
+            finally:
+                self.modstack.pop()
         if isinstance(base, Obj) and not attr.startswith('__'):
             if hasattr(base, attr):
                 return getattr(base, attr)
@@ -242,7 +255,7 @@ class ModelInterp(MiniEval):
             raise Unsupported(f'super().{f.attr}')
         if isinstance(f, ast.Attribute):
             recv = self.expr(f.value, env)
-            if isinstance(recv, (Stub, Recorder, ClassRef)):
+            if isinstance(recv, (Stub, Recorder, ClassRef, ModuleRef)):
                 target = self.get_attr(recv, f.attr)
                 if isinstance(target, Hook):
                     args, kwargs = self._args(e, env)
@@ -376,6 +389,14 @@ class ModelInterp(MiniEval):
                 env[a_.arg] = kwargs[a_.arg]
             elif d is not None:
                 env[a_.arg] = self.expr(d, {})
+        from .minieval import _is_generator
+        if _is_generator(fn):
+            env['__yields__'] = []
+            try:
+                self.block(fn.body, env)
+            except _Return:
+                pass
+            return env['__yields__']
         try:
             self.block(fn.body, env)
         except _Return as r:
